@@ -128,3 +128,200 @@ Proof.
   exact cancel_before_first_step_probe.
 Qed.
 Print Assumptions C03_refuted_before_fix.
+
+(* ================================================================================================
+   WHOLE RUNS WITH A CANCELLATION (schedule level; Sched/CancelRun.v, CancelRunThm.v,
+   CancelRunExample.v, extending the C01 development Sched/EagerRun*.v).
+
+   Vocabulary (AD, ref_run, agree, evlog, calm_run, task_outcome, Inv09/InvC: see Props/C01.v):
+     ref_run_c c val n   the pure reference run of the await-determined body c in which the first
+                         n awaits (await f / sleep(0)) are answered as in ref_run (await f by
+                         [val f]), the (n+1)-th is resumed with a CancelledError, and whatever
+                         the body does afterwards (catch, log, await again, re-raise, return) is
+                         run by ref_run again.  No tasks, no loop, no schedule, no start mode.
+     susp_at c val n     the (n+1)-th await point on that path: (events logged before it, what
+                         the body yields there, the body's continuation)
+     m : option nat      how the cancellation reaches the task:
+                           None    cancel() found it not blocked - the continuation task of
+                                   eager() not yet stepped (TEager: the F2 case), or an ordinary
+                                   task woken but not yet run (the future's value is lost), or
+                                   runnable after sleep(0): _must_cancel, thrown at its next step;
+                           Some f  it was blocked on the pending future f: f is cancelled, its
+                                   wake-up throws the CancelledError
+     pendb tn m s        the cancellation is pending in s (_must_cancel set / f cancelled)
+     deliver_ok .. s     tn is suspended at its (n+1)-th await: tcont_ is TSusp (or, for m = None,
+                         TEager) with exactly the frames and continuation of susp_at c val n
+                         (m = Some f: that await yields f, and f stores no exception instance)
+     cancel_run val c tn n m s acts
+                         run-checked shape of the run, at every action boundary: while no
+                         cancellation is pending the run is calm; while one is pending (cancel()
+                         may be called again, from inside any task's step - also the step that
+                         called eager() - from the loop, from outside; any other code may run)
+                         tn's future is not done, and tn's first step is the delivery, with
+                         deliver_ok; afterwards the run is calm again (no second cancellation);
+                         the delivery happens within acts.  cancel_run_opt: same, delivery not
+                         required.
+     P2 P m              the futures the body may await after the delivery: P, minus f if m = Some f
+     post_ok P val c n m (m = Some f) after the CancelledError the body stays within P2, i.e. does
+                         not await the future that was cancelled under it again
+     val_nc val          no awaited future fails with a CancelledError(-subclass) instance
+     own_done sf tn      tn's future is done only if tn finished (model artefact, see C01 notes) *)
+From Asynkit Require Import Sched.PartTables Sched.PartitionRun Sched.TaskFrame Sched.FutMono
+     Sched.EagerRunOth Sched.EagerRun Sched.EagerRunThm Sched.CancelRun Sched.CancelRunThm
+     Sched.CancelRunExample.
+
+(* the reference semantics, spelled out *)
+Theorem C03_reference_with_cancellation :
+  forall val n,
+  (forall v, ref_run_c (Ret v) val n = ([], RVal v)) /\
+  (forall e, ref_run_c (Raise e) val n = ([], RExc e)) /\
+  (forall x k, ref_run_c (Call (OLog x) k) val n =
+               (x :: fst (ref_run_c (k (RVal 0)) val n), snd (ref_run_c (k (RVal 0)) val n))) /\
+  (forall f k, ref_run_c (Call (OAwaitFut f) k) val (S n) = ref_run_c (k (val f)) val n) /\
+  (forall k, ref_run_c (Call OSleep0 k) val (S n) = ref_run_c (k (RVal 0)) val n) /\
+  (forall f k, ref_run_c (Call (OAwaitFut f) k) val 0 = ref_run (k (RExc ECancelled)) val) /\
+  (forall k, ref_run_c (Call OSleep0 k) val 0 = ref_run (k (RExc ECancelled)) val).
+Proof. intros val n. repeat split; reflexivity. Qed.
+Print Assumptions C03_reference_with_cancellation.
+
+(* CANCELLED = THE REFERENCE, FOR BOTH START MODES, WITH THE SAME RIGHT-HAND SIDE.
+   (1) eager start: at any point of any run where a running task t executes eager(c) (state s inside
+   t's step, any caller continuation k - which may itself cancel the awaitable at once) and the body
+   suspended (continuation task tn), then the caller's step ends and any actions follow: if the run
+   has the shape cancel_run - one delivered cancellation, while the body is suspended at its
+   (n+1)-th await, reaching it in mode m - the prefix events followed by tn's events are the trace
+   of ref_run_c c val n and tn's future holds its outcome (FCancelled when the CancelledError
+   propagates out of the body).
+   (2) a plain task (any C task kind) of the same body under the same conditions: the same. *)
+Theorem C03_cancel_is_reference :
+  forall qok, QSpec qok -> forall (P : nat -> Prop) c val n m,
+  AD P c -> post_ok P val c n m -> val_nc val ->
+  (forall s t k acts s1 y frs kc s' o,
+     InvC qok (Some t) s -> current s = Some t ->
+     coro_ok (length (blocks s)) (Spawn SEager c k) ->
+     (forall f, P f -> f < length (futs s)) ->
+     (forall f, m = Some f -> fcancelled s f = false) ->
+     exec t c s = (s1, OYield y frs kc) ->
+     exec t (Spawn SEager c k) s = (s', o) ->
+     let sb := finish_step t s' o <| current := None |> in
+     let sf := fold_left do_action acts sb in
+     let tn := length (tasks s1) in
+     actions_ok sb acts -> cancel_run val c tn n m sb acts -> agree (P2 P m) sf val ->
+     tcont_ (gett sf tn) = TFin ->
+     map snd (skipn (length (log s)) (log s1)) ++ map snd (evlog tn (length (log s1)) sf)
+       = fst (ref_run_c c val n) /\
+     fstate_ (getf sf (tfut (gett sf tn))) = task_outcome (snd (ref_run_c c val n))) /\
+  (forall s how acts,
+     Inv09 qok s -> how <> SPy -> (forall f, P f -> f < length (futs s)) ->
+     let tn := length (tasks s) in
+     let s1 := do_action s (ASpawn how c) in
+     let sf := fold_left do_action acts s1 in
+     actions_ok s1 acts -> cancel_run val c tn n m s1 acts -> agree (P2 P m) sf val ->
+     tcont_ (gett sf tn) = TFin ->
+     map snd (evlog tn (length (log s)) sf) = fst (ref_run_c c val n) /\
+     fstate_ (getf sf (tfut (gett sf tn))) = task_outcome (snd (ref_run_c c val n))).
+Proof.
+  intros qok QS P c val n m Hc Hpo Hnc. split.
+  - intros s t k acts s1 y frs kc s' o I Hcur Hok Rng Hnp E1 E sb sf tn Ha Hr A Fin.
+    exact (eager_cancel_run qok QS P s t c k acts val n m I Hcur Hc Hok Rng Hnp s1 y frs kc s' o E1 E
+             Hpo Hnc Ha Hr A Fin).
+  - intros s how acts I Hh Rng tn s1 sf Ha Hr A Fin.
+    exact (plain_cancel_run qok QS P s how c acts val n m I Hh Hc Rng Hpo Hnc Ha Hr A Fin).
+Qed.
+Print Assumptions C03_cancel_is_reference.
+
+(* "exactly as for a plain task cancelled at that point": any eager run and any plain run of the same
+   body - own parents, environments, loop kinds, schedules, and own ways m1 / m2 in which the
+   cancellation arrives (e.g. eager: before the continuation's first step; plain: while blocked) -
+   that resolve the awaited futures alike (val) and deliver the cancellation at the same await
+   index n have equal event sequences and equal states of the awaitable *)
+Theorem C03_same_as_cancelled_task :
+  forall (P : nat -> Prop) c val n, AD P c -> val_nc val ->
+  (* the eager run *)
+  forall qok1, QSpec qok1 -> forall m1 s t k acts s1 y frs kc s' o,
+  post_ok P val c n m1 ->
+  InvC qok1 (Some t) s -> current s = Some t ->
+  coro_ok (length (blocks s)) (Spawn SEager c k) -> (forall f, P f -> f < length (futs s)) ->
+  (forall f, m1 = Some f -> fcancelled s f = false) ->
+  exec t c s = (s1, OYield y frs kc) -> exec t (Spawn SEager c k) s = (s', o) ->
+  let sb := finish_step t s' o <| current := None |> in
+  let sf := fold_left do_action acts sb in
+  let tn := length (tasks s1) in
+  actions_ok sb acts -> cancel_run val c tn n m1 sb acts -> agree (P2 P m1) sf val ->
+  tcont_ (gett sf tn) = TFin ->
+  (* the plain run *)
+  forall qok2, QSpec qok2 -> forall m2 z how acts2,
+  post_ok P val c n m2 ->
+  Inv09 qok2 z -> how <> SPy -> (forall f, P f -> f < length (futs z)) ->
+  let tp := length (tasks z) in
+  let z1 := do_action z (ASpawn how c) in
+  let zf := fold_left do_action acts2 z1 in
+  actions_ok z1 acts2 -> cancel_run val c tp n m2 z1 acts2 -> agree (P2 P m2) zf val ->
+  tcont_ (gett zf tp) = TFin ->
+  map snd (skipn (length (log s)) (log s1)) ++ map snd (evlog tn (length (log s1)) sf) =
+    map snd (evlog tp (length (log z)) zf) /\
+  fstate_ (getf sf (tfut (gett sf tn))) = fstate_ (getf zf (tfut (gett zf tp))).
+Proof.
+  intros P c val n Hc Hnc qok1 QS1 m1 s t k acts s1 y frs kc s' o Hpo1 I Hcur Hok R1 Hnp E1 E sb sf tn
+         Ha Hr A Fin qok2 QS2 m2 z how acts2 Hpo2 Iz Hh R2 tp z1 zf Ha2 Hr2 A2 Fin2.
+  destruct (eager_cancel_run qok1 QS1 P s t c k acts val n m1 I Hcur Hc Hok R1 Hnp s1 y frs kc s' o E1 E
+              Hpo1 Hnc Ha Hr A Fin) as [T1 O1].
+  destruct (plain_cancel_run qok2 QS2 P z how c acts2 val n m2 Iz Hh Hc R2 Hpo2 Hnc Ha2 Hr2 A2 Fin2) as [T2 O2].
+  split.
+  - transitivity (fst (ref_run_c c val n)); [exact T1|symmetry; exact T2].
+  - transitivity (task_outcome (snd (ref_run_c c val n))); [exact O1|symmetry; exact O2].
+Qed.
+Print Assumptions C03_same_as_cancelled_task.
+
+(* NEVER LEFT SUSPENDED (whole-run form of C03_no_stranded).  A body started by eager() that
+   suspended: in every run that ends drained (empty ready queue) with all the futures it may await
+   done (a cancelled future is done), the task has FINISHED (tcont_ = TFin: by C03_no_stranded a
+   task reaches TFin only by running its coroutine to the end, so its finally blocks ran; by
+   C01_eager_equals_plain / C03_cancel_is_reference its events are then the complete reference
+   trace) - (1) when it was never cancelled, (2) when the run has the cancel_run shape WITHOUT
+   the assumption that the cancellation was delivered: a requested cancellation of a suspended
+   body cannot stay undelivered in a drained run, and the body cannot stay suspended *)
+Theorem C03_continuation_always_run :
+  forall qok, QSpec qok -> forall (P : nat -> Prop) s t c k acts val,
+  InvC qok (Some t) s -> current s = Some t ->
+  AD P c -> coro_ok (length (blocks s)) (Spawn SEager c k) ->
+  (forall f, P f -> f < length (futs s)) ->
+  forall s1 y frs kc s' o,
+  exec t c s = (s1, OYield y frs kc) ->
+  exec t (Spawn SEager c k) s = (s', o) ->
+  let sb := finish_step t s' o <| current := None |> in
+  let sf := fold_left do_action acts sb in
+  let tn := length (tasks s1) in
+  actions_ok sb acts ->
+  rq_items (ready sf) = [] -> (forall f, P f -> fdone sf f = true) -> own_done sf tn ->
+  (calm_run tn sb acts -> agree P sf val -> tcont_ (gett sf tn) = TFin) /\
+  (forall n m, post_ok P val c n m -> val_nc val ->
+     (forall f, m = Some f -> fcancelled s f = false /\ fstate_ (getf sf f) = FCancelled) ->
+     cancel_run_opt val c tn n m sb acts -> agree (P2 P m) sf val -> tcont_ (gett sf tn) = TFin).
+Proof. exact eager_always_run. Qed.
+Print Assumptions C03_continuation_always_run.
+
+(* the instance asked for in DESIGN 9.3: body  try: await f0; log 1; await f1; log 2 finally: log 9
+   (A) eager start, cancelled by the caller before the continuation task's first step, (A') plain
+   task cancelled while blocked on f0: events [9], FCancelled, finished, in both; (B) eager,
+   cancelled while blocked on f1, (B') plain, cancelled while woken but not yet run: [1; 9],
+   FCancelled in both; all four runs have the cancel_run shape (n = 0 resp. 1) and end drained *)
+Theorem C03_cancel_example :
+  (ref_run_c cx_body cx_val 0 = ([9]%Z, RExc ECancelled) /\
+   ref_run_c cx_body cx_val 1 = ([1; 9]%Z, RExc ECancelled) /\
+   cx_obs cx_A 1 = ([9]%Z, TFin, FCancelled) /\
+   cx_obs cx_A' 0 = ([9]%Z, TFin, FCancelled) /\
+   cx_obs cx_B 1 = ([1; 9]%Z, TFin, FCancelled) /\
+   cx_obs cx_B' 0 = ([1; 9]%Z, TFin, FCancelled) /\
+   (exists y frs k, tcont_ (gett cx_A_start 1) = TEager y frs k) /\ tmustc (gett cx_A_start 1) = true /\
+   rq_items (ready cx_A) = [] /\ rq_items (ready cx_A') = [] /\
+   rq_items (ready cx_B) = [] /\ rq_items (ready cx_B') = []) /\
+  cancel_run cx_val cx_body 1 0 None cx_A_start cx_A_acts /\
+  cancel_run cx_val cx_body 0 0 (Some 0) cx_A'_start cx_A'_acts /\
+  cancel_run cx_val cx_body 1 1 (Some 1) cx_B_start cx_B_acts /\
+  cancel_run cx_val cx_body 0 1 None cx_B'_start cx_B'_acts.
+Proof.
+  split; [exact ex_cancel_same|]. split; [exact ex_cancel_run_A|]. split; [exact ex_cancel_run_A'|].
+  split; [exact ex_cancel_run_B|exact ex_cancel_run_B'].
+Qed.
+Print Assumptions C03_cancel_example.
